@@ -26,7 +26,7 @@ def main(argv):
         ck.coq_gates(["C13"], THEOREMS, "EV.C13.Props")
     if bins:
         if ok or os.path.exists(os.path.join(COQ, "theories/C13/Corr.vo")):
-            correspondence13(ck, bins["c13"], ck.scale(600, 6000))
+            correspondence13(ck, bins["c13"], ck.scale(400, 6000))
         if ck.broken:
             ck.deep = True
         search13(ck, bins["c13"], ck.scale(6000, 120000))
